@@ -16,10 +16,17 @@ W: generator programs (conservative features of C03) whose shadow assertions are
    middle / last / main's own block; assertion position first / last; k functions lose their shadow block.
    Multi-file programs: the same with the assertion in the imported module's block (known finding), in the
    main module's block, and missing shadow blocks in the imported module.
+   Stale output: the -o path already holds a file when nanoc is run on a program with a false assertion (an earlier
+   successful build of the same program with true assertions / an unrelated executable script / an empty file /
+   a non-executable text file).  Reading of "leaves no executable at the output path": after a compile refused
+   because of a shadow test there is no regular file with any execute bit at the path.  The empty and the text
+   file (mode 0644) are the controls against over-claiming: whether nanoc keeps or removes them is recorded, never
+   judged.  Counter-control: with all assertions true a stale executable at the path is replaced by the new build.
 """
 import copy
 import os
 import re
+import stat
 
 from .. import build, engines, sweep
 from ..core import VERIF
@@ -36,6 +43,10 @@ SWEEP_FEATURES = dict(C03_FEATURES)
 FIND = os.path.join(VERIF, "findings", "C06")
 
 K_IMPORTED = "imported-module-block-not-gating"
+K_STALE = "stale-executable-left-at-output-path"
+STALE_SCRIPT = "#!/bin/sh\necho stale-unrelated-executable\n"
+STALE_TEXT = "notes kept by the user at the output path; not a program\n"
+STALE_VARIANTS = ["earlier-build", "unrelated-executable", "empty-file", "text-file", "all-true-overwrites"]
 
 FAILED_RE = re.compile(r"Shadow test '([^']*)' FAILED: (\d+) assertion\(s\) failed")
 MISSING_RE = re.compile(r"Function '([^']*)' is missing a shadow test")
@@ -368,6 +379,64 @@ class Case:
         self.imported = set(f.name for m in prog.modules for f in m.funcs) if prog is not None else set()
 
 
+def nanoc_keep(plain, d):
+    """run nanoc on d/main.nano WITHOUT touching what is at the -o path first"""
+    from ..run import run as sh
+    return sh([plain.nanoc, "main.nano", "-o", "main.bin"], cwd=d, env=plain.fastcc_env({"TMPDIR": d}), cpu=120)
+
+
+def path_state(p):
+    """(kind, executable-bit?, size, content head) of what is at p; kind None when nothing is there"""
+    try:
+        st = os.lstat(p)
+    except OSError:
+        return (None, False, 0, b"")
+    if not stat.S_ISREG(st.st_mode):
+        return ("other", False, 0, b"")
+    with open(p, "rb") as f:
+        head = f.read(64)
+    return ("file", bool(st.st_mode & 0o111), st.st_size, head)
+
+
+def stale_scenario(plain, d, variant, good_files, bad_files):
+    """-> dict(variant, setup_ok, rc, cls, before, after)"""
+    out = os.path.join(d, "main.bin")
+    res = {"variant": variant, "setup_ok": True}
+    try:
+        os.unlink(out)
+    except OSError:
+        pass
+    if variant == "earlier-build":
+        engines.write_files(d, good_files)
+        r0 = nanoc_keep(plain, d)
+        st0 = path_state(out)
+        if r0.rc != 0 or st0[0] != "file" or not st0[1]:
+            res["setup_ok"] = False
+            return res
+    elif variant in ("unrelated-executable", "all-true-overwrites"):
+        with open(out, "w") as f:
+            f.write(STALE_SCRIPT)
+        os.chmod(out, 0o755)
+    elif variant == "empty-file":
+        open(out, "w").close()
+        os.chmod(out, 0o644)
+    elif variant == "text-file":
+        with open(out, "w") as f:
+            f.write(STALE_TEXT)
+        os.chmod(out, 0o644)
+    res["before"] = path_state(out)
+    engines.write_files(d, good_files if variant == "all-true-overwrites" else bad_files)
+    r = nanoc_keep(plain, d)
+    res["timeout"] = r.timeout
+    res["rc"] = r.rc
+    res["status"] = r.status
+    res["cls"] = None if r.rc == 0 else engines.classify_nanoc_failure(r)
+    res["after"] = path_state(out)
+    res["stdout"] = r.out
+    res["stderr"] = r.err
+    return res
+
+
 def observe(plain, d, files):
     engines.write_files(d, files)
     r, built = engines.build_native(plain, d)
@@ -436,6 +505,7 @@ def run(ctx):
 
         cases = []
         gen_skipped = {}
+        originals = dict((i, prog) for i, prog, exp in batch)
         for i, prog, exp in batch:
             r = ctx.rng("perturb", i)
             plan = pick_plan(r)
@@ -575,14 +645,78 @@ def run(ctx):
                     full = "gate-open|%s" % c.kind
                 ctx.violation(full, "%s: %s" % (c.label, msg), files)
 
+        # ---------------- stale file at the -o path ---------------------------------------------------------
+        n_stale = ctx.n(6, 40)
+        donors = [c for c, r, exists in results if c.kind == "sweep" and c.prog is not None and not r.timeout and not c.prog.modules
+                  and any(not all(a) for a in c.T.values()) and engines.classify_nanoc_failure(r) == "shadow" and r.rc != 0 and not exists][:n_stale]
+        stale_jobs = []
+        for c in donors:
+            try:
+                good = originals[c.idx].files()
+            except (TypeError, ValueError):
+                continue
+            for v in STALE_VARIANTS:
+                stale_jobs.append((c, v, good))
+
+        def do_stale(job):
+            c, v, good = job
+            d = sc.sub("stale-%s-%s" % (c.label, v))
+            res = stale_scenario(plain, d, v, good, c.files)
+            if res.get("timeout"):
+                res = stale_scenario(plain, d, v, good, c.files)
+            return c, res
+
+        stale = {v: {"cases": 0, "refused_by_shadow_test": 0, "executable_at_path_afterwards": 0, "file_kept_unchanged": 0,
+                     "file_removed": 0, "skipped": 0} for v in STALE_VARIANTS}
+        stale["all-true-overwrites"] = {"cases": 0, "replaced_by_new_build": 0, "skipped": 0}
+        for c, res in pmap(do_stale, stale_jobs):
+            v = res["variant"]
+            h = stale[v]
+            if not res["setup_ok"] or res.get("timeout"):
+                h["skipped"] += 1
+                continue
+            h["cases"] += 1
+            before, after = res["before"], res["after"]
+            files = dict(c.files)
+            files["nanoc.stdout"] = res["stdout"]
+            files["nanoc.stderr"] = res["stderr"]
+            files["scenario.txt"] = "variant: %s\nat the -o path before nanoc: %r\nafter nanoc (exit %s): %r\nT(p) = %r\n" % (v, before, res["status"], after, c.T)
+            if v == "all-true-overwrites":
+                # counter-control: a successful build replaces whatever was at the path
+                if res["rc"] == 0 and after[0] == "file" and after[1] and after[3] != before[3]:
+                    h["replaced_by_new_build"] += 1
+                elif res["cls"] in ("cc", "crash"):
+                    h["skipped"] += 1
+                    h["cases"] -= 1
+                else:
+                    ctx.violation("all-true-did-not-replace-output", "%s: every shadow assertion holds, a stale executable was at -o; nanoc exit %s, path now %r" % (c.label, res["status"], after[:3]), files)
+                continue
+            if res["cls"] != "shadow":
+                h["skipped"] += 1
+                h["cases"] -= 1
+                continue
+            h["refused_by_shadow_test"] += 1
+            if after[0] is None:
+                h["file_removed"] += 1
+            elif after == before:
+                h["file_kept_unchanged"] += 1
+            if after[0] == "file" and after[1]:
+                h["executable_at_path_afterwards"] += 1
+                ctx.violation(K_STALE, "%s [%s]: nanoc refused the program (a shadow assertion is false, exit %s) but a regular file with an execute bit is at the -o path afterwards (%s)" % (
+                    c.label, v, res["status"], "the file that was there before, untouched" if after == before else "size %d" % after[2]), files)
+            elif after[0] == "file" and v in ("empty-file", "text-file") and after != before:
+                # the controls: kept or removed are both fine, silently CHANGED content would not be
+                ctx.violation("output-path-file-modified-by-refused-compile", "%s [%s]: a refused compile changed the non-executable file at the -o path: %r -> %r" % (c.label, v, before, after), files)
+
         n_false = sum(v for k, v in kinds.items() if k != "0")
         if not ctx.violations:
+            ctx.require(sum(h["cases"] for h in stale.values()) >= len(STALE_VARIANTS) * 3, "too few stale-output scenarios ran: %s" % stale)
             ctx.require(judged >= len(cases) * 0.7, "too few programs reached a verdict (%d of %d): %s" % (judged, len(cases), hist))
             ctx.require(hist.get("built", 0) >= n // 12 and hist.get("refused+named", 0) >= n // 6,
                         "the run did not see enough of both sides of the gate: %s" % hist)
             ctx.require(missing_checked >= n // 20, "too few functions without a shadow block were observed")
         return ctx.finish({
-            "evaluations": len(results),
+            "evaluations": len(results) + sum(h["cases"] for h in stale.values()),
             "distinct_nontrivial": len(shapes),
             "rule": "distinct (position classes of the falsified assertions [wrapper, block position, assertion position, value type], count class "
                     "of false assertions in T(p), number of removed shadow blocks, generator feature set) among programs that reached a verdict",
@@ -597,6 +731,9 @@ def run(ctx):
             "refusals_naming_exactly_the_failing_blocks": named_exact,
             "failed_lines_with_count_equal_to_model": "%d/%d" % tuple(count_match),
             "generation_skipped": gen_skipped,
+            "stale_output_scenarios": stale,
+            "stale_output_reading": "after a compile refused because of a shadow test there is no regular file with any execute bit at the -o path; "
+                                    "non-executable files (empty, text: the controls) may be kept or removed, but not modified",
             "samples": samples,
         }, assumptions=[
             "T(p) is computed by the reference model nlv/gen/ref.py with record-and-continue semantics for assert (what the documentation and eval.c do inside shadow blocks)",
